@@ -18,8 +18,16 @@ EXPLANATION = ("A marked command (symbolic port PSEL, marked at an acceptance th
                "this implies read-your-writes per byte, per-port order and cross-port order by acceptance.")
 
 
-def _extra(core, top, mon, kw):
+def _extra(core, top, mon, kw, ncmd=None):
     ps, gs = core.phy_settings, core.geom_settings
+    if ncmd is not None:
+        # small-scope restriction: at most `ncmd` commands are accepted in the whole window (any ports, any timing, any addresses)
+        tot = Signal(max=ncmd + 2)
+        nacc = sum([p.cmd.valid & p.cmd.ready for p in core.ports[1:]], core.ports[0].cmd.valid & core.ports[0].cmd.ready)
+        top.sync += tot.eq(Mux(tot + nacc > ncmd, ncmd + 1, tot + nacc))
+        a = Signal()
+        top.comb += a.eq(tot + nacc <= ncmd)
+        kw["assumes"]["at_most_%d_commands_in_the_window" % ncmd] = a
     align = core.controller.interface.address_align
     om = monitors.TrackMonitor(core.ports, core.dfi, mon, gs.colbits, gs.bankbits, align,
                                write_latency=ps.write_latency, read_latency=ps.read_latency,
@@ -45,19 +53,25 @@ T_SMALL = dict(tRP=2, tRCD=2, tWR=2, tWTR=2, tREFI=100, tRFC=3, tFAW=None, tCCD=
 T_FULL = dict(tRP=2, tRCD=2, tWR=2, tWTR=2, tREFI=100, tRFC=4, tFAW=6, tCCD=2, tRRD=2, tRC=6, tRAS=4)
 
 CONFIGS = {
-    "sdr_2b_2p": (dict(phy="sdr_fast", bankbits=1, nports=2, timing=T_SMALL, ctrl=dict(cmd_buffer_depth=4)), 34, 50, "qt"),
-    "ddr3_1_4_2b_2p": (dict(phy="ddr3_fast", bankbits=1, nports=2, timing=T_SMALL, ctrl=dict(cmd_buffer_depth=4)), 32, 46, "qt"),
-    "ddr_1_2_2b_2p_noap": (dict(phy="ddr3_fast2", bankbits=1, nports=2, timing=T_FULL, ctrl=dict(cmd_buffer_depth=4, with_auto_precharge=False)), 0, 44, "t"),
-    "sdr_4b_3p_buffered": (dict(phy="sdr_fast", bankbits=2, nports=3, timing=T_SMALL, ctrl=dict(cmd_buffer_depth=4, cmd_buffer_buffered=True)), 0, 40, "t"),
-    "sdr_2b_1p_depth8": (dict(phy="sdr_fast", bankbits=1, nports=1, timing=T_SMALL, ctrl=dict(cmd_buffer_depth=8)), 0, 50, "t"),
-    "sdr_2b_2p_bba": (dict(phy="sdr_fast", bankbits=1, colbits=4, nports=2, timing=T_SMALL, ctrl=dict(cmd_buffer_depth=4, bank_byte_alignment=32)), 0, 40, "t"),
+    "sdr_2b_2p": (dict(phy="sdr_fast", bankbits=1, nports=2, timing=T_SMALL, ctrl=dict(cmd_buffer_depth=4)), 16, 20, "qt"),
+    "ddr3_1_4_2b_2p": (dict(phy="ddr3_fast", bankbits=1, nports=2, timing=T_SMALL, ctrl=dict(cmd_buffer_depth=4)), 15, 19, "qt"),
+    "ddr_1_2_2b_2p_noap": (dict(phy="ddr3_fast2", bankbits=1, nports=2, timing=T_FULL, ctrl=dict(cmd_buffer_depth=4, with_auto_precharge=False)), 0, 18, "t"),
+    "sdr_4b_3p": (dict(phy="sdr_fast", bankbits=2, nports=3, timing=T_SMALL, ctrl=dict(cmd_buffer_depth=4)), 0, 16, "t"),
+    "sdr_2b_2p_buffered": (dict(phy="sdr_fast", bankbits=1, nports=2, timing=T_SMALL, ctrl=dict(cmd_buffer_depth=4, cmd_buffer_buffered=True)), 0, 18, "t"),
+    "sdr_2b_1p_depth8": (dict(phy="sdr_fast", bankbits=1, nports=1, timing=T_SMALL, ctrl=dict(cmd_buffer_depth=8)), 0, 20, "t"),
+    "sdr_2b_2p_bba": (dict(phy="sdr_fast", bankbits=1, colbits=4, nports=2, timing=T_SMALL, ctrl=dict(cmd_buffer_depth=4, bank_byte_alignment=32)), 0, 18, "t"),
 }
 
+BENCH_NCMD = {}
+for _k in (3, 4, 5):
+    BENCH_NCMD["exp_ncmd%d" % _k] = _k
 CONFIGS["exp_1p_d4"] = (dict(phy="sdr_fast", bankbits=1, nports=1, timing=T_SMALL, ctrl=dict(cmd_buffer_depth=4)), 0, 0, "")
 CONFIGS["exp_2p_d2"] = (dict(phy="sdr_fast", bankbits=1, nports=2, timing=T_SMALL, ctrl=dict(cmd_buffer_depth=2)), 0, 0, "")
 CONFIGS["exp_1p_d2"] = (dict(phy="sdr_fast", bankbits=1, nports=1, timing=T_SMALL, ctrl=dict(cmd_buffer_depth=2)), 0, 0, "")
 CONFIGS["exp_1p_d2_norefresh"] = (dict(phy="sdr_fast", bankbits=1, nports=1, timing=T_SMALL, ctrl=dict(cmd_buffer_depth=2, with_refresh=False)), 0, 0, "")
 BENCHES = {n: partial(corebench.core_bench, n, c[0], None, True, _extra) for n, c in CONFIGS.items()}
+for _n, _k in BENCH_NCMD.items():
+    BENCHES[_n] = partial(corebench.core_bench, _n, CONFIGS["sdr_2b_2p"][0], None, True, partial(_extra, ncmd=_k))
 
 
 def run(ctx):
@@ -69,7 +83,7 @@ def run(ctx):
         if ctx.only and not ctx.only.search(n):
             continue
         if ctx.tier == "quick" and "q" in tiers:
-            ctx.add(n, kq, timeout=1200)
+            ctx.add(n, kq, timeout=900, min_K=kq - 2, first_chunk=11, chunk=1, cover_required=False)
         elif ctx.tier == "thorough":
-            ctx.add(n, kt, timeout=3000)
+            ctx.add(n, kt, timeout=3300, min_K=(kq or 15) - 1, first_chunk=11, chunk=1, cover_required=False)
     ctx.run()
